@@ -312,7 +312,11 @@ func (i *invoker) clientStream(
 		// Sleep for any specified delay
 		time.Sleep(time.Duration(req.RequestDelayMs) * time.Millisecond)
 
-		if err := stream.Send(csr); err != nil && errors.Is(err, io.EOF) {
+		if err := stream.Send(csr); err != nil {
+			// The send failed: either the server already ended the call (io.EOF)
+			// or the call was canceled or timed out. In both cases this request
+			// and all remaining ones are unsent, and CloseAndReceive below
+			// returns the actual error.
 			numUnsent = len(req.RequestMessages) - i
 			break
 		}
@@ -416,9 +420,13 @@ func (i *invoker) bidiStream(
 		// Sleep for any specified delay
 		time.Sleep(time.Duration(req.RequestDelayMs) * time.Millisecond)
 
-		if err := stream.Send(bsr); err != nil && errors.Is(err, io.EOF) {
-			// Call receive to get the error and convert it to a proto error
-			if _, recvErr := stream.Receive(); recvErr != nil {
+		if err := stream.Send(bsr); err != nil {
+			if !errors.Is(err, io.EOF) {
+				// The call was canceled or timed out: the send error says so.
+				protoErr = internal.ConvertErrorToProtoError(err)
+			} else if _, recvErr := stream.Receive(); recvErr != nil {
+				// The server ended the call: receive to get the actual error
+				// and convert it to a proto error
 				protoErr = internal.ConvertErrorToProtoError(recvErr)
 			} else {
 				// Just in case the receive call doesn't return the error,
@@ -426,7 +434,7 @@ func (i *invoker) bidiStream(
 				// happen, but is here as a safeguard.
 				protoErr = internal.ConvertErrorToProtoError(err)
 			}
-			// Break the send loop
+			// Break the send loop: this request and all remaining ones are unsent
 			result.NumUnsentRequests = int32(len(req.RequestMessages) - i)
 			break
 		}
@@ -439,6 +447,8 @@ func (i *invoker) bidiStream(
 					// to a proto Error. If the error was an EOF, that just means
 					// reads are done.
 					protoErr = internal.ConvertErrorToProtoError(err)
+					// The requests after this one will not be sent
+					result.NumUnsentRequests = int32(len(req.RequestMessages) - i - 1)
 				}
 				// Reads are done either because we received an error or an EOF
 				// In either case, break the outer loop
